@@ -27,6 +27,9 @@ func sweepCases(tier string, o sweepOpts) []Case {
 		v := v
 		cs = append(cs, Case{ID: fmt.Sprintf("prefilter/%d", v), Run: func() CaseResult { return prefilterCase(v, o) }})
 	}
+	if o.c24 || o.c23 {
+		cs = append(cs, Case{ID: "no-leaf-trees", Run: func() CaseResult { return noLeafCase(o) }})
+	}
 	if o.c01 || o.c02 {
 		cs = append(cs, Case{ID: "trees/truth-table", Run: func() CaseResult { return treeCase(o) }})
 		cs = append(cs, Case{ID: "batch-boundaries", Run: func() CaseResult { return batchBoundaryCase(o) }})
